@@ -52,6 +52,7 @@ pub fn run_case(ctx: &mut Ctx, fam: &str, _k: u64, r: &mut Rng) {
     let has_batch = spec.in_dims.len() > rank_unbatched;
     let mut iterations = vec![];
     let mut batch_sizes = vec![];
+    let mut repeated_batches = 0u64;
     for _ in 0..n_iter {
         let mut s = spec.clone();
         if has_batch && r.chance(1, 2) {
@@ -64,6 +65,17 @@ pub fn run_case(ctx: &mut Ctx, fam: &str, _k: u64, r: &mut Rng) {
                 s.in_dims[nd - 2] = filters.2 + *r.pick(&[0, 1, 2, 3]);
                 s.in_dims[nd - 1] = filters.3 + *r.pick(&[0, 1, 2, 3]);
             }
+        }
+        // epochs over a small data set: now and then the batch is the previous one again (the loop then hands the very
+        // same array handle to the model a second time)
+        if !iterations.is_empty() && r.chance(1, 5) {
+            let prev: &Iteration = iterations.last().unwrap();
+            let (pi, pt) = (prev.input.clone(), prev.target.clone());
+            batch_sizes.push(if has_batch { pi.dims[0] } else { 0 });
+            let target = if r.chance(1, 2) { pt } else { gen_target(r, &pt.dims) };
+            iterations.push(Iteration::plain(pi, target, r.chance(1, 8)));
+            repeated_batches += 1;
+            continue;
         }
         batch_sizes.push(if has_batch { s.in_dims[0] } else { 0 });
         let input = gen_input(r, &s, false);
@@ -166,6 +178,7 @@ pub fn run_case(ctx: &mut Ctx, fam: &str, _k: u64, r: &mut Rng) {
     let desc = format!("{} iterations={} batch_sizes={:?}{}", spec.describe(), n_iter, batch_sizes, if disturbed { format!(" disturbances=[{}]", notes.join("; ")) } else { String::new() });
     ctx.case(&desc, n_iter >= 2 && spec.lr > 0.0);
     ctx.sample(if spec.is_conv() { "conv" } else { "dense" }, || desc.clone());
+    ctx.count("iterations_on_the_previous_batch_again", repeated_batches);
     if spec.is_conv() {
         ctx.count("conv_histories", 1);
     }
